@@ -166,3 +166,60 @@ From HV Require Import Topo.Remove Topo.RemoveProofs.
 Theorem no_empty_leaf_remains : forall o r, fst (remove_empty o) = Some r -> NoEmptyLeaf r.
 Proof. exact remove_empty_no_empty_leaf. Qed.
 Print Assumptions no_empty_leaf_remains.
+
+(* ---------- insertion of memory objects (model: Topo/MemAttach.v, tied call by call to
+   hwloc__find_insert_memory_parent / hwloc___attach_memory_object_by_nodeset through the insertion hook) ---------- *)
+From HV Require Import Topo.Insert Topo.MemAttach Topo.MemAttachProofs.
+
+(* attaching a NUMA node or memory-side cache keeps the memory children strictly sorted by the first index of
+   their nodeset at every level of the memory subtree, for every parent and every new object *)
+Theorem memory_attach_keeps_sorted : forall parent o, MemOK parent -> MemOK (fst (attach_by_nodeset parent o)).
+Proof. exact attach_keeps_memory_sorted. Qed.
+Print Assumptions memory_attach_keeps_sorted.
+
+(* it touches nothing else of the parent: payload, normal, I/O and Misc children are the same *)
+Theorem memory_attach_keeps_other_children : forall parent o,
+  let p' := fst (attach_by_nodeset parent o) in
+  odata p' = odata parent /\ onch p' = onch parent /\ oich p' = oich parent /\ oxch p' = oxch parent.
+Proof. exact attach_keeps_other_children. Qed.
+Print Assumptions memory_attach_keeps_other_children.
+
+(* a successful attachment adds exactly the new object (no memory object lost, duplicated or altered);
+   a refused one (identical NUMA node, memory-side cache of the same depth) is the identity *)
+Theorem memory_attach_adds_exactly_obj : forall parent o, snd (attach_by_nodeset parent o) = AOk ->
+  Permutation (map odata (mflatten (fst (attach_by_nodeset parent o)))) (odata o :: map odata (mflatten parent)).
+Proof. exact attach_ok_adds_exactly_obj. Qed.
+Print Assumptions memory_attach_adds_exactly_obj.
+
+Theorem memory_attach_refusal_is_identity : forall parent o,
+  snd (attach_by_nodeset parent o) = ANull -> fst (attach_by_nodeset parent o) = parent.
+Proof. exact attach_null_is_identity. Qed.
+Print Assumptions memory_attach_refusal_is_identity.
+
+(* the parent search goes down through the first child including the cpuset until equality or no such child *)
+Theorem memory_parent_search_spec : forall root up cs, bs_is_empty cs = false -> Cov cs root (fst (covering root up cs)).
+Proof. exact covering_spec. Qed.
+Print Assumptions memory_parent_search_spec.
+
+Theorem memory_parent_without_groups_keeps_tree : forall dms ggp root o,
+  fst (find_insert_memory_parent false dms ggp root o) = root.
+Proof. exact find_parent_without_groups_keeps_tree. Qed.
+Print Assumptions memory_parent_without_groups_keeps_tree.
+
+(* Non-vacuity: a parent with NUMA nodes P#0 and P#2; P#1 goes between them, a memory-side cache for P#2 goes
+   above it, a second P#2 is refused; the hypotheses of the theorems hold on these states *)
+Definition ex_mem (id ty os : N) (depth : Z) : obj :=
+  Obj (mkDobj id ty 0%Z os (Some id) PNull PNull PNull PNull PNull PNull PNull 0 0 0 0 0 0 None [] [] [] []
+         (Some (bs_of_N 3)) None (Some (bs_single os)) None 0 0 depth (-1)%Z (-1)%Z (-1)%Z (-1)%Z (-1)%Z (-1)%Z) [] [] [] [].
+Definition ex_mparent : obj :=
+  Obj (ex_d 0 HWLOC_OBJ_MACHINE) [ex_leaf 3; ex_leaf 4] [ex_mem 10 HWLOC_OBJ_NUMANODE 0 (-1); ex_mem 11 HWLOC_OBJ_NUMANODE 2 (-1)] [] [].
+Example memory_attach_example :
+  MemOK ex_mparent /\
+  map (fun c => (oid c, map oid (omch c))) (omch (fst (attach_by_nodeset ex_mparent (ex_mem 12 HWLOC_OBJ_NUMANODE 1 (-1))))) = [(10, []); (12, []); (11, [])] /\
+  map (fun c => (oid c, map oid (omch c))) (omch (fst (attach_by_nodeset ex_mparent (ex_mem 13 HWLOC_OBJ_MEMCACHE 2 1)))) = [(10, []); (13, [11])] /\
+  attach_by_nodeset ex_mparent (ex_mem 14 HWLOC_OBJ_NUMANODE 2 (-1)) = (ex_mparent, ANull).
+Proof.
+  split; [|vm_compute; repeat split].
+  constructor; [|repeat constructor].
+  repeat constructor; unfold mlt; vm_compute; reflexivity.
+Qed.
